@@ -20,7 +20,7 @@ BUDGETS = {'C18': (60, 1200, 40)}
 LEVELS = {'C18': 'exploration'}
 WALL_LIMIT = {('C18', 'quick'): 180, ('C18', 'thorough'): 180}
 SHRINK = {'C18': (45, 60)}
-PROBES = {'C18': web.PROBES['C18'] + ['crawl_level', 'crawl.robots_perpetual_5xx', 'crawl.robots_reset', 'crawl.robots_ok', 'crawl.perpetual_5xx', 'crawl.reset', 'crawl.refused', 'crawl.stall', 'crawl.redirect_loop', 'crawl.partial_body', 'crawl.partial_body_small',
+PROBES = {'C18': web.PROBES['C18'] + ['crawl_level', 'crawl.robots_perpetual_5xx', 'crawl.robots_reset', 'crawl.robots_ok', 'crawl.robots_redirect_loop', 'crawl.robots_redirect_chain', 'crawl.perpetual_5xx', 'crawl.reset', 'crawl.refused', 'crawl.stall', 'crawl.redirect_loop', 'crawl.partial_body', 'crawl.partial_body_small',
                                      'crawl.tries_exhausted', 'crawl.several_starts', 'crawl.waitretry', 'crawl.retry_connrefused', 'crawl.concurrency>1']}
 INFO = {'C18': dict(web.INFO['C18'], rule=web.INFO['C18']['rule'] + ' ; crawl level: site with 1..3 perpetually failing URLs (kind drawn) x --tries '
                     '{1,2,3,5,7,10} x 1..4 start URLs x --max-redirect x --retry-connrefused x --waitretry x concurrency; visits are identified by the item try count '
@@ -67,7 +67,7 @@ def run(tape, prop, tier):
             r.probes['crawl.several_starts'] += 1
         site.finalize()
         # robots.txt itself may be the thing that keeps failing
-        robots_mode = tape.choice((None, None, 'perpetual_5xx', 'reset', 'ok'), 'robots.mode')
+        robots_mode = tape.choice((None, None, 'perpetual_5xx', 'reset', 'ok', 'redirect_loop', 'redirect_chain'), 'robots.mode')
         if robots_mode:
             r.probes['crawl.robots_' + robots_mode] += 1
             if robots_mode != 'ok':
@@ -119,6 +119,12 @@ def run(tape, prop, tier):
                         server.send(conn, 503, 'Busy', [('Content-Type', 'text/plain')], b'busy')
                     elif robots_mode == 'reset':
                         conn.reset()
+                    elif robots_mode in ('redirect_loop', 'redirect_chain'):
+                        # robots.txt itself keeps redirecting: the redirect limit holds for this fetch as for any other
+                        n = loop_state.get('robots', 0)
+                        loop_state['robots'] = n + 1
+                        loc = '/robots.txt' if robots_mode == 'redirect_loop' and n % 2 else '/robots.txt?hop=%d' % n
+                        server.send(conn, tape.choice((301, 302, 307), 'robots.redirect.code'), 'Moved', [('Location', loc), ('Content-Type', 'text/plain')], b'moved')
                     else:
                         server.send(conn, 200, 'OK', [('Content-Type', 'text/plain')], b'User-agent: *\nDisallow:\n')
                 for o in site.origins:
@@ -146,6 +152,8 @@ def run(tape, prop, tier):
                 if '?hop=' in target:
                     base = target.split('?', 1)[0]
                     beh = server.behaviour.get((origin.key(), base))
+                    if base == '/robots.txt' and beh is not None:
+                        server.behaviour[(origin.key(), target)] = beh
                     if beh is not None:
                         server.behaviour[(origin.key(), target)] = beh
                 return orig_serve(conn, origin, raw, ctx)
@@ -180,8 +188,18 @@ def run(tape, prop, tier):
             if max(visits) >= tries:
                 r.violate(P, 'tries-exceeded', 'visit-with-try-count>=tries', '%s was requested with try count %d although --tries is %d' % (u, max(visits), tries))
             for tc, es in visits.items():
-                if len(es) > 1 + max_redirect + 1:
-                    r.violate(P, 'redirect-limit-exceeded', 'crawl-level', 'one visit of %s issued %d requests with --max-redirect %d' % (u, len(es), max_redirect))
+                page = [e for e in es if not e.get('robots')]
+                if len(page) > 1 + max_redirect + 1:
+                    r.violate(P, 'redirect-limit-exceeded', 'crawl-level', 'one visit of %s issued %d requests with --max-redirect %d' % (u, len(page), max_redirect))
+        # a robots.txt fetch is a visit of its own kind: bounded by the same redirect limit
+        chains = {}
+        for e in server.log:
+            rec = e['rec']
+            if rec is not None and e.get('robots'):
+                chains.setdefault((rec.get('item_run'), e['origin']), []).append(e)
+        for (run_id, o), es in chains.items():
+            if len(es) > 1 + max_redirect:
+                r.violate(P, 'redirect-limit-exceeded', 'robots-fetch', 'one robots.txt fetch for %r issued %d requests with --max-redirect %d' % (o, len(es), max_redirect))
         for x in rows:
             if x['status'] not in ('done', 'skipped', 'error'):
                 r.violate(P, 'row-stuck', x['status'], 'row %s ended %s' % (x['url'], x['status']))
